@@ -60,7 +60,16 @@ AtLimit == <<
 
 \* (Limit is deliberately not a power of two: a body buffer that an at-limit request left behind has spare capacity
 \*  beyond the limit, so "over the limit" must be decided by counting, not by running out of buffer)
-Scripts == [k \in 1 .. Len(Over) |-> <<Over[k], Probe>>]
+\* malformed only behind the head (buffered mode reads the whole message before the handler runs: no handler, one 4xx)
+Raw(s) == [Req("GET", "/", "none", 0, << >>, << >>) EXCEPT !.raw = s]
+LateBad == <<
+   Raw("POST /badtr HTTP/1.1\r\nHost: example.com\r\nTransfer-Encoding: chunked\r\n\r\n3\r\nabc\r\n0\r\nBad Key: x\r\n\r\n"),
+   Raw("POST /badtr2 HTTP/1.1\r\nHost: example.com\r\nTransfer-Encoding: chunked\r\n\r\n3\r\nabc\r\n0\r\nNoColon\r\n\r\n"),
+   Raw("POST /badchunk HTTP/1.1\r\nHost: example.com\r\nTransfer-Encoding: chunked\r\n\r\n3\r\nabc\r\nZZ\r\nabc\r\n0\r\n\r\n"),
+   Raw("POST /badchunk2 HTTP/1.1\r\nHost: example.com\r\nTransfer-Encoding: chunked\r\n\r\n3\r\nabcXX0\r\n\r\n") >>
+
+Scripts == [k \in 1 .. Len(LateBad) |-> <<LateBad[k]>>] \o [k \in 1 .. Len(LateBad) |-> <<Probe, LateBad[k]>>] \o
+           [k \in 1 .. Len(Over) |-> <<Over[k], Probe>>]
            \o [k \in 1 .. Len(Over) |-> <<Probe, Over[k]>>]
            \o [k \in 1 .. Len(AtLimit) |-> <<AtLimit[k], Probe>>]
            \o [k \in 1 .. Len(AtLimit) |-> <<AtLimit[k], Over[((k * 3) % Len(Over)) + 1]>>]
